@@ -44,7 +44,12 @@ def run(ck):
         y = rng.choice(K, size=n, p=pr / pr.sum()); y[:K] = np.arange(K)
         nv = 60
         Xv = xr.make_X('random', nv, d, rng); yv = rng.choice(K, size=nv, p=pr / pr.sum()); yv[:K] = np.arange(K)
-        desc = dict(i=i, K=K, mode=mode, metric=metric, n_trees=n_trees, soft=soft, n=n, L=L, p0=p0, seed=ck.seed)
+        # a class that never occurs in the TRAINING labels (it is known from the validation labels only): every third fit with K >= 3
+        gap = (K >= 3 and i % 3 == 1 and metric != 'auc')
+        if gap:
+            y[y == 1] = 0
+            ck.count('middle class absent from training labels')
+        desc = dict(i=i, K=K, mode=mode, metric=metric, n_trees=n_trees, soft=soft, n=n, L=L, p0=p0, gap=gap, seed=ck.seed)
         xr.seed_all(1200 + i + ck.seed)
         model = xr.xRFM(rfm_params=xr.default_rfm_params(iters=1, reg=1e-2, bandwidth=4.0), max_leaf_size=L, n_trees=n_trees, verbose=False,
                         tuning_metric=metric, classification_mode=mode, use_temperature_tuning=False,
